@@ -70,6 +70,11 @@ pub enum LocMode {
 }
 
 pub fn make_loc(p: &Prog, a: u16, b: u16, c: i16, mode: LocMode) -> Loc {
+    // (a = 0xFFFF: the word of the program with index b, exactly - for histories that need two
+    // addresses a chosen distance apart)
+    if a == 0xFFFF {
+        return Loc::Abs(p.orig.wrapping_add(b % 512), 0);
+    }
     let n = p.img.words.len();
     let code_addr = |sel: u16| p.orig.wrapping_add(idx(sel, n + 2) as u16);
     match (mode, a % 8) {
